@@ -4,7 +4,7 @@
    Model/C20_Fanout.v.  "History" = any list of operations (any length, any order, any arguments);
    the conditions [guarded .. g h init] restrict histories only by what the chain clock and the
    scheduler guarantee (stated with each theorem). *)
-From Verif Require Import Lib.Base Lib.Sched Model.C20_Bookkeeping Model.C20_Fanout Proofs.C20_Bookkeeping Proofs.C20_Fanout Proofs.C20_Unbounded.
+From Verif Require Import Lib.Base Lib.Sched Model.C20_Bookkeeping Model.C20_Fanout Proofs.C20_Bookkeeping Proofs.C20_Fanout Proofs.C20_Unbounded Model.C20_Jobs Proofs.C20_Jobs.
 
 (* ---------------------------------------------------------------------------------------------- *)
 (* attested (services/attester/standard): in every history whose attestation jobs start in slot
@@ -172,6 +172,23 @@ Theorem C20_jobs_only_outstanding :
 Proof. exact jobs_only_scheduled. Qed.
 Print Assumptions C20_jobs_only_outstanding.
 
+(* The real scheduler's table (services/scheduler/advanced, model C20_Jobs): after every history of
+   ScheduleJob / CancelJob / RunJob calls and passing time, of any length, names are unique and every
+   entry is a job whose time has NOT come yet: nothing that has run, been cancelled or fallen due
+   stays behind; and the table never holds more entries than ScheduleJob was called. *)
+Theorem C20_scheduler_table_future_only :
+  forall h, let s := jrun h jinit in
+    NoDup (map fst (j_tab s)) /\ (forall id t, In (id, t) (j_tab s) -> j_now s < t).
+Proof. intros h s. destruct (jinv_run h jinit jinv_init) as [H1 H2]. split; assumption. Qed.
+Print Assumptions C20_scheduler_table_future_only.
+
+Theorem C20_scheduler_table_bounded :
+  forall h,
+    (length (j_tab (jrun h jinit)) <=
+     length (filter (fun o => match o with JSchedule _ _ => true | _ => false end) h))%nat.
+Proof. intro h. exact (table_bounded_by_schedules h jinit). Qed.
+Print Assumptions C20_scheduler_table_bounded.
+
 (* ---------------------------------------------------------------------------------------------- *)
 (* goroutines of the `first` strategies and of unblinding: n providers, channel capacity cap, a
    collector that takes at most k answers (with or without a deadline [t], with or without the
@@ -254,6 +271,11 @@ Example C20_history_example :
   guarded 4 true aucs_ok h init = true /\
   sizes (run 4 true h init) = [1; 0; 0; 0; 0; 1; 2; 2].
 Proof. vm_compute. repeat split; reflexivity. Qed.
+
+Example C20_scheduler_example :
+  let s := jrun [JSchedule 1 10; JSchedule 2 20; JSchedule 1 5; JAdvance 10; JRun 2; JSchedule 3 0; JSchedule 4 7; JCancel 4; JSchedule 5 9] jinit in
+  j_tab s = [(5, 19)] /\ j_runs s = [3; 2; 1] /\ j_now s = 10.
+Proof. vm_compute. auto. Qed.
 
 Example C20_fanout_example :
   let s := scenario 3 3 1 true false [FRelease 1 true; FRelease 0 true; FRelease 2 false] in
